@@ -8,6 +8,9 @@
 // every step the served stores are compared with (a) the invariants of the property
 // statement, (b) the records loaded back from storage, (c) the model.
 //
+// Property "race" (race_test.go): the background store check against a concurrent
+// UpStore of a burial candidate, with an order-independent oracle.
+//
 // Property "grpc" (grpc_test.go): a real 1-member server; PutStore / StoreHeartbeat
 // of a tombstone store must be answered with STORE_TOMBSTONE and change nothing.
 package c14
@@ -41,7 +44,7 @@ func TestProp(t *testing.T)   { t.Cleanup(stopServer); vkit.RunAll(t) }
 func TestReplay(t *testing.T) { t.Cleanup(stopServer); vkit.RunReplay(t) }
 
 // KeyMergeLabels names the known finding "a rejected / failed label merge is visible
-// in the served store" (see TestFinding_merge_labels_in_place).
+// in the served store" (see TestFinding_failed_label_merge_visible).
 const KeyMergeLabels = "C14/failed-label-merge-visible"
 
 // KeyHeartbeatPanic names the known finding "store heartbeat panics after the record of
